@@ -276,6 +276,17 @@ impl ScalarClientFieldTraversalState {
                     }));
                     path.linked_fields = complete_path;
 
+                    // The arguments of a client pointer selection are written in terms of the
+                    // child's variables as well (they are part of the key in the merged map).
+                    if let SelectionType::Object(name_and_arguments) = path.field_name {
+                        path.field_name = SelectionType::Object(
+                            transform_name_and_arguments_with_child_variable_context(
+                                name_and_arguments,
+                                transformed_child_variable_context,
+                            ),
+                        );
+                    }
+
                     ((path, *selection_variant), root_refetched_path.clone())
                 },
             ));
